@@ -11,7 +11,7 @@ NextRel(x, k, xn, kn) ==
   \/ x < k /\ xn = x + 1 /\ kn = k                                  \* put of a new key with room
   \/ x > 0 /\ xn = x - 1 /\ kn = k                                  \* remove / remove_lru
   \/ xn = 0 /\ kn = k                                               \* purge
-  \/ \E m \in Nat : kn = m /\ xn = (IF x > m THEN m ELSE x)         \* resize
+  \/ kn \in Nat /\ xn = (IF x > kn THEN kn ELSE x)                 \* resize to any capacity kn
 Init == n = 0 /\ c \in Nat /\ c >= 1
 Next == NextRel(n, c, n', c')
 IndInv == n >= 0 /\ c >= 0 /\ n <= c
